@@ -18,7 +18,7 @@ from sa.flow import Expander, flow_of
 from sa.model import src, walk_no_nested, unmangle
 from sa.pat import match, same
 from . import sched
-from .sched import BOTH, FWD, PassShape
+from .sched import BOTH, FWD, BWD, PassShape
 
 FIELDS = ('start', 'end', 'estimate', 'spent')
 
@@ -69,6 +69,11 @@ def check(ctx):
 
     o = ctx.ob('wbs_start_end', 'R8', "WBS.start = min(root starts), WBS.end = max(root ends), over all roots, None filter only", floor=2)
     ctx.guarded(o, lambda o: wbs_bounds(ctx, o))
+
+    o = ctx.ob('backward_leaf_start_not_after_fill', 'R8',
+               "backward: on every path a leaf's start is the start computed by the fill from its end, or min(user start, that): a user-"
+               "entered start that is kept as it is can lie after the end", floor=1)
+    ctx.guarded(o, lambda o: backward_leaf_start(ctx, o, PassShape(ctx, BWD)))
 
     o = ctx.ob('forward_leaf_end_after_start', 'R8',
                "forward: a computed leaf end is max(fill(.., start', ..), now()) with start' >= task.start, and the fill returns start' "
@@ -408,6 +413,10 @@ def rollup(ctx, o, ps: PassShape, attrs=None):
                 o.site(ps.f, st, f"summary {attr}: fallback when no child has a {attr}")
                 continue
             v = val
+            if isinstance(v, ast.Call) and isinstance(v.func, ast.Name) and v.func.id in ('min', 'max') and len(v.args) == 1 and \
+                    len(v.keywords) == 1 and v.keywords[0].arg == 'default':
+                # min(xs, default=d): d only answers for an empty xs (no child has the date), otherwise the plain extremum
+                v = val = ast.copy_location(ast.Call(func=v.func, args=v.args, keywords=[]), v)
             call = v if isinstance(v, ast.Call) and isinstance(v.func, ast.Name) else None
             if call is None or call.func.id != op:
                 vx = ps.ex.expand(val, stn)
@@ -425,6 +434,12 @@ def rollup(ctx, o, ps: PassShape, attrs=None):
                             o.site(ps.f, st, f"summary {attr} = running total of child.{attr} over all children")
                         else:
                             o.refute(ps.f, r[1], r[1], f"summary {attr}: {r[2]}")
+                    elif isinstance(vx, ast.Call) and isinstance(vx.func, (ast.Name, ast.Attribute)) and \
+                            (vx.func.id if isinstance(vx.func, ast.Name) else vx.func.attr) in ('round', 'int', 'abs', 'ceil', 'floor', 'trunc') and vx.args \
+                            and isinstance(vx.args[0], ast.Call) and isinstance(vx.args[0].func, ast.Name) and vx.args[0].func.id == op:
+                        wname = vx.func.id if isinstance(vx.func, ast.Name) else vx.func.attr
+                        o.refute(ps.f, st, st, f"summary {attr} is `{src(vx)[:80]}`: the {op} over the children is passed through {wname}(), so the "
+                                               f"summary no longer carries exactly the {op} of its children's {attr}")
                     elif isinstance(vx, ast.Name) or (isinstance(vx, ast.Call) and not (isinstance(vx.func, ast.Name) and
                                                                                          vx.func.id in ('min', 'max', 'sum', 'len', 'datetime'))):
                         o.undecided(ps.f, st, st, f"summary {attr} is `{src(vx)[:60]}`, which could not be resolved to {op}(children {attr}s)")
@@ -506,6 +521,57 @@ def wbs_bounds(ctx, o):
                 good = None
         if good is False:
             o.refute(f, f.node, f'WBS.{attr}', f"WBS.{attr} never returns the {op} over the roots")
+
+
+def backward_leaf_start(ctx, o, ps: PassShape):
+    fill = ctx.prog.func(ps.S['fill'])
+    sts = [x for x in ps.stores('start') if x[3]['milestone'] is False and x[3]['leaf'] is True]
+    if not sts:
+        vague = [x for x in ps.stores('start') if x[3]['leaf'] is None and x[3]['milestone'] is not True]
+        if vague:
+            o.undecided(ps.f, vague[0][0], vague[0][0], "task.start is stored under conditions the rule cannot classify as leaf / summary")
+        else:
+            o.refute(ps.f, ps.f.node, 'leaf start', "backward: the start of a leaf is never computed")
+        return
+
+    def from_fill(e):
+        args = facts.flatten_lattice(e, 'min') or [e]
+        return any(isinstance(a, ast.Call) and isinstance(a.func, ast.Attribute) and unmangle(a.func.attr) == fill.name for a in args)
+    covered_user_start = False
+    for st, tgt, val, reg in sts:
+        v = ps.ex.expand(val, ps.cfg.node_of(st))
+        cases = sched.expr_cases(v)
+
+        def kept_because_earlier(cc, c):
+            """the case keeps the user's start under a test that says it is not later than the computed one"""
+            if not match(f"{ps.task}.start", c):
+                return False
+            for t, p in cc:
+                for a, q in facts.split_conj(t, p):
+                    if isinstance(a, ast.Compare) and len(a.ops) == 1:
+                        l, op, r = a.left, a.ops[0], a.comparators[0]
+                        user_left, user_right = bool(match(f"{ps.task}.start", l)), bool(match(f"{ps.task}.start", r))
+                        lt, gt = isinstance(op, (ast.Lt, ast.LtE)), isinstance(op, (ast.Gt, ast.GtE))
+                        if (user_left and ((lt and q) or (gt and not q)) and from_fill(r)) or \
+                                (user_right and ((gt and q) or (lt and not q)) and from_fill(l)):
+                            return True
+            return False
+        bad = [c for cc, c in cases if not from_fill(c) and not kept_because_earlier(cc, c)]
+        if bad:
+            if any(isinstance(x, ast.Name) and x.id not in ps.f.params for b in bad for x in ast.walk(b) if isinstance(x, ast.Name) and x.id != ps.task
+                   and ps.fl.defs_of(x.id)):
+                o.undecided(ps.f, st, st, f"leaf start `{src(v)[:80]}` contains a local the rule could not resolve")
+            else:
+                o.refute(ps.f, st, st, f"backward: leaf start `{src(bad[0])[:80]}` is not the start computed by the fill (nor a min() with it)")
+            return
+        if reg['is_none'].get('start') is not True:
+            covered_user_start = True
+    if covered_user_start:
+        o.site(ps.f, sts[-1][0], "leaf start = fill(..) or min(user start, fill(..)) whether or not the user entered a start")
+    else:
+        st = sts[0][0]
+        o.refute(ps.f, st, st, "backward: the computed start is stored only when the leaf has no start (`start is None`): a start entered by "
+                               "the user is kept as it is and can lie after the end the pass gives the task (start > end)")
 
 
 def leaf_order(ctx, o, ps: PassShape):
